@@ -160,7 +160,16 @@ pub fn test(t: &Test, r: &Record, now: u64) -> Result<bool, Undefined> {
         Test::Type(l) => l.iter().any(|t| r.mode & 0o170000 == t.ifmt()),
         Test::Pool(p) => r.pools.iter().any(|x| x == p),
         Test::Xattr(n) => r.xattr(n).is_some(),
-        Test::XattrMatch(n, v) => r.xattrs.iter().any(|(xn, xv)| fnmatch(n, xn, false) && fnmatch(v, xv, false)),
+        Test::XattrMatch(n, v) => {
+            // same rule as for names: only a string with a pattern character is a pattern; any
+            // other name/value pair (backslashes included) is looked up and compared as it stands
+            let pattern = |s: &str| s.contains(|c| "*?['".contains(c));
+            if pattern(n) || pattern(v) {
+                r.xattrs.iter().any(|(xn, xv)| fnmatch(n, xn, false) && fnmatch(v, xv, false))
+            } else {
+                r.xattr(n) == Some(v.as_str())
+            }
+        }
         Test::ANewer(_)
         | Test::CNewer(_)
         | Test::FsType(_)
